@@ -20,6 +20,8 @@ def run(ctx):
     translate.r_keykinds(ctx)
     translate.r_transl(ctx)
     wrappers.r_lmienc(ctx)
+    wrappers.r_mainvars(ctx)
+    wrappers.r_psdstore(ctx)
     pepsolve.r_objsense(ctx)
     state.r_accum(ctx)
     nb = wrappers.r_baridx(ctx)
